@@ -1018,17 +1018,18 @@ DYADIC = [(1, 1), (1, 2), (3, 2), (2, 1), (1, 4), (3, 1)]
 
 
 def cutoff_life_stream(chk, rng, n_lives):
-    """ hidden state OUTSIDE the evaluator: the cutoff / neighbourhood attributes of a rule object are multiplied in
-        place by the parser and by every Ruleset construction (Ruleset(...), Ruleset.from_files, copy_with_replacements).
-        The life of one rule object (parse multiplier, then a sequence of Ruleset constructions) is compared with the
-        model [cutoff_life] (fn 9); outside the finding class (at most one non-unit multiplier in the whole life) the
-        attribute must be text * that multiplier from then on.  The finding class (a second non-unit multiplier applied
-        to an object that was already scaled) is attributed to finding C01-H1 while it is listed as known. """
+    """ state OUTSIDE the evaluator: the cutoff / neighbourhood a rule is evaluated with, through the parser and a sequence
+        of Ruleset constructions (Ruleset(...) over the rule objects the newest holder detects with,
+        copy_with_replacements of the newest ruleset; Ruleset.from_files for the stored witness).  Each life is compared
+        with the model [cutoff_life] (fn 9) and with an independent oracle: a copy holds what its source was GIVEN times
+        its own multiplier, a Ruleset what it is given times its own multiplier; in a chain of copies from a ruleset over
+        the parsed rule that is text * own multiplier.  No holder's values may change after its construction and a plain
+        copy keeps the values.  Finding C01-H1 (class ruleset_rescales_shared_rules: in-place scaling of shared rule
+        objects) is repaired: nothing is attributed to it any more, its witnesses are the first lives. """
     import shutil
     import tempfile
     from antismash.common.hmm_rule_parser import rule_parser as rp, cluster_prediction
     from antismash.common.hmm_rule_parser.structures import Multipliers, DynamicProfile
-    known = {f["class"]: f for f in common.load_known_findings("C01") if f.get("status") == "known"}
     dynamic = {"p0": DynamicProfile("p0", "d", lambda _record, _hits: {})}
 
     def mult(m):
@@ -1036,18 +1037,21 @@ def cutoff_life_stream(chk, rng, n_lives):
 
     def life(kb, m0, ms, how):
         """ -> values seen through the newest holder after parsing and after every construction (cutoffs, neighbourhoods),
-            the holders whose view changed after they were created, and whether a plain copy kept the values """
+            the holders whose view changed after they were created, whether a plain copy kept the values, and the
+            constructions as performed (a "copy" before any ruleset exists is a construction) """
         text = f"RULE r CATEGORY cat CUTOFF {kb} NEIGHBOURHOOD {kb} CONDITIONS p0"
         rules = rp.Parser(text, {"p0"}, {"cat"}, multipliers=mult(m0)).rules
         holders = [("parsed rule object", rules[0], rules[0].cutoff, rules[0].neighbourhood)]
         cutoffs, neighbourhoods = [rules[0].cutoff], [rules[0].neighbourhood]
-        ruleset, current = None, rules
+        ruleset, current, done = None, rules, []
         for number, (m, step) in enumerate(zip(ms, how)):
             if step == "copy" and ruleset is not None:
                 ruleset = ruleset.copy_with_replacements(rules=list(ruleset.rules), multipliers=mult(m))
+                done.append(True)
             else:
                 ruleset = cluster_prediction.Ruleset(tuple(current), {}, "seeds", {"cat"}, tool="t", dynamic_profiles=dynamic,
                                                      equivalence_groups=set(), multipliers=mult(m))
+                done.append(False)
             current = list(ruleset.rules)
             rule = ruleset.rules[0]
             cutoffs.append(rule.cutoff)
@@ -1059,26 +1063,35 @@ def cutoff_life_stream(chk, rng, n_lives):
         if ruleset is not None:
             plain = ruleset.copy_with_replacements(tool="t2")
             kept = (plain.rules[0].cutoff, plain.rules[0].neighbourhood) == (cutoffs[-1], neighbourhoods[-1])
-        return cutoffs, neighbourhoods, changed, kept
+        return cutoffs, neighbourhoods, changed, kept, done
+    # the witnesses of the repaired finding C01-H1 first: a ruleset with 3/2 and a copy / a second ruleset over the same
+    # objects (was 10000, 15000, 22500 - the same object in all holders), the fungal path of hmm_detection
+    corpus = [(10, (1, 1), [(3, 2), (3, 2)], ["new", "copy"]), (10, (1, 1), [(3, 2), (3, 2)], ["new", "new"]),
+              (10, (1, 1), [(1, 1), (3, 2)], ["new", "copy"]), (10, (3, 2), [(3, 2), (1, 2)], ["new", "copy"])]
     cases, impl_outs, metas = [], [], []
     for _ in range(n_lives):
-        kb = rng.choice([1, 2, 5, 10, 20, 45])
-        n_sets = rng.choice([0, 1, 1, 2, 3])
-        if rng.random() < 0.7:
-            # at most one non-unit multiplier in the whole life
-            all_ms = [(1, 1)] * (n_sets + 1)
-            if rng.random() < 0.7:
-                all_ms[rng.randrange(len(all_ms))] = rng.choice(DYADIC[1:])
+        if corpus:
+            kb, m0, ms, how = corpus.pop(0)
         else:
-            all_ms = [rng.choice(DYADIC) for _ in range(n_sets + 1)]
-        m0, ms = all_ms[0], all_ms[1:]
-        how = [rng.choice(["new", "copy"]) for _ in ms]
-        cutoffs, neighbourhoods, changed, kept = life(kb, m0, ms, how)
+            kb = rng.choice([1, 2, 5, 10, 20, 45])
+            n_sets = rng.choice([0, 1, 1, 2, 3, 4])
+            if rng.random() < 0.3:
+                # at most one non-unit multiplier in the whole life
+                all_ms = [(1, 1)] * (n_sets + 1)
+                if rng.random() < 0.7:
+                    all_ms[rng.randrange(len(all_ms))] = rng.choice(DYADIC[1:])
+            else:
+                all_ms = [rng.choice([(1, 1), (1, 1)] + DYADIC) for _ in range(n_sets + 1)]
+                if rng.random() < 0.6:
+                    all_ms[0] = (1, 1)
+            m0, ms = all_ms[0], all_ms[1:]
+            how = [rng.choice(["new", "copy", "copy"]) for _ in ms]
+        all_ms = [m0] + list(ms)
+        cutoffs, neighbourhoods, changed, kept, done = life(kb, m0, ms, how)
         non_unit = [m for m in all_ms if m != (1, 1)]
-        # the finding class: some Ruleset of the life has a non-unit multiplier (then the objects it was given, which
-        # others still hold, are rescaled; and copying that Ruleset rescales again)
-        in_class = any(m != (1, 1) for m in ms)
-        chk.count("cutoff_life_in_class_" + RESCALE_CLASS if in_class else "cutoff_life_outside_class")
+        chk.count("cutoff_life_with_ruleset_multiplier" if any(m != (1, 1) for m in ms) else "cutoff_life_unit_rulesets")
+        chk.count("cutoff_life_constructions", len(ms))
+        flat = [PROP, 9, kb, m0[0], m0[1], len(ms)] + [x for m, copied in zip(ms, done) for x in (1 if copied else 0, m[0], m[1])]
         meta = {"text": f"CUTOFF {kb} NEIGHBOURHOOD {kb}", "parse_multiplier": m0, "ruleset_multipliers": ms,
                 "constructions": how, "cutoffs": cutoffs, "neighbourhoods": neighbourhoods,
                 "holders_whose_values_changed_later": changed, "plain_copy_kept_values": kept}
@@ -1088,31 +1101,33 @@ def cutoff_life_stream(chk, rng, n_lives):
         if kept is False:
             failures.append("copy_with_replacements without new rules or multipliers returned rules with other distances")
         if failures:
-            if in_class and RESCALE_CLASS in known:
-                chk.count("known_" + RESCALE_CLASS)
-            else:
-                chk.violation("counterexample", "Ruleset construction and rule objects: " + failures[0],
-                              {"theorem_or_correspondence": "C01_cutoff_unit_multipliers (guard) / finding class " + RESCALE_CLASS,
-                               "flat": [PROP, 9, kb, m0[0], m0[1], len(ms)] + [x for m in ms for x in m],
-                               "implementation": cutoffs, "failures": failures, "input": meta})
+            chk.violation("counterexample", "Ruleset construction and rule objects: " + failures[0] + " (class " + RESCALE_CLASS +
+                          ", repaired as C01-H1, is back)",
+                          {"theorem_or_correspondence": "C01_cutoff_ruleset_copy, C01_cutoff_constructor_given / Ruleset.__post_init__, "
+                                                        "copy_with_replacements",
+                           "flat": flat, "implementation": cutoffs, "failures": failures, "input": meta})
+        # the independent oracle: (value given to the newest holder, value it detects with)
+        given = value = kb * 1000 * m0[0] // m0[1]
+        wanted = [value]
+        for m, copied in zip(ms, done):
+            given = given if copied else value
+            value = given * m[0] // m[1]
+            wanted.append(value)
         for values, what in ((cutoffs, "cutoff"), (neighbourhoods, "neighbourhood")):
-            flat = [PROP, 9, kb, m0[0], m0[1], len(ms)] + [x for m in ms for x in m]
             cases.append(flat)
             impl_outs.append([len(values)] + values)
             metas.append(meta)
             chk.note_case(flat + [0 if what == "cutoff" else 1], len(non_unit) >= 1, None)
-            if len(non_unit) <= 1:
-                wanted, scaled = [], kb * 1000
-                for m in all_ms:
-                    scaled = scaled * m[0] // m[1]
-                    wanted.append(scaled)
-                if values != wanted:
-                    chk.violation("counterexample", f"the rule's {what} after parsing and Ruleset construction is not text * multiplier",
-                                  {"theorem_or_correspondence": "C01_cutoff_unit_multipliers / single scaling", "flat": flat,
-                                   "implementation": values, "expected": wanted, "input": meta})
-    common.correspondence(chk, cases, impl_outs, label="cutoff attribute over the life of a rule object: model vs implementation",
-                          describe=lambda flat: {"function": "Parser / Ruleset.__post_init__ scaling", "payload": flat[2:]})
-    # the stored witness: the public constructor Ruleset.from_files with non-unit multipliers
+            if values != wanted:
+                chk.violation("counterexample", f"the rule's {what} after parsing and Ruleset construction is not the distance given "
+                              "times the ruleset's own multiplier (text * multiplier for a ruleset over the parsed rule and its copies)",
+                              {"theorem_or_correspondence": "C01_cutoff_unit_multipliers, C01_cutoff_scaled_once, C01_cutoff_ruleset_copy "
+                                                            "/ Parser, Ruleset.__post_init__, copy_with_replacements", "flat": flat,
+                               "implementation": values, "expected": wanted, "input": meta})
+    common.correspondence(chk, cases, impl_outs, label="cutoff through parser and Ruleset constructions: model vs implementation",
+                          describe=lambda flat: {"function": "Parser / Ruleset.__post_init__ / copy_with_replacements scaling",
+                                                 "payload": flat[2:]})
+    # the stored witness of the repaired finding: the public constructor Ruleset.from_files with non-unit multipliers
     tmp = tempfile.mkdtemp(prefix="c01_ruleset_")
     try:
         for name, text in (("rules.txt", "RULE r CATEGORY cat CUTOFF 10 NEIGHBOURHOOD 4 CONDITIONS p0"), ("sigs.txt", ""),
@@ -1128,22 +1143,13 @@ def cutoff_life_stream(chk, rng, n_lives):
         shutil.rmtree(tmp, ignore_errors=True)
     chk.extra["ruleset_from_files_witness"] = {"text": "CUTOFF 10 NEIGHBOURHOOD 4", "multipliers": [1.5, 2.0], "got": got,
                                                "text_times_multiplier": [15000, 8000]}
-    if got == (22500, 16000):
-        if RESCALE_CLASS in known:
-            chk.known(f"{known[RESCALE_CLASS]['id']} class={RESCALE_CLASS}: {known[RESCALE_CLASS]['what_fails']}")
-        else:
-            chk.violation("counterexample", "Ruleset.from_files(multipliers=(1.5, 2.0)) on `CUTOFF 10 NEIGHBOURHOOD 4` yields rules with "
-                          "cutoff 22500 / neighbourhood 16000 (text * multiplier^2): the multipliers are applied by the parser and "
-                          "again, in place on the same rule objects, by Ruleset.__post_init__ (class " + RESCALE_CLASS +
-                          " is not listed as known in known_findings.json)",
-                          {"theorem_or_correspondence": "C01_cutoff_scaled_once_refuted", "flat": [PROP, 9, 10, 3, 2, 1, 3, 2],
-                           "implementation": list(got), "expected": [15000, 8000],
-                           "input": chk.extra["ruleset_from_files_witness"]})
-    elif got != (15000, 8000):
-        chk.violation("counterexample", f"Ruleset.from_files(multipliers=(1.5, 2.0)) on `CUTOFF 10 NEIGHBOURHOOD 4` yields {got}: neither "
-                      "text * multiplier nor the recorded defective value",
-                      {"theorem_or_correspondence": "C01_cutoff_scaled_once_refuted", "flat": [PROP, 9, 10, 3, 2, 1, 3, 2],
-                       "implementation": list(got), "expected": [15000, 8000]})
+    if got != (15000, 8000):
+        chk.violation("counterexample", f"Ruleset.from_files(multipliers=(1.5, 2.0)) on `CUTOFF 10 NEIGHBOURHOOD 4` yields rules with "
+                      f"cutoff / neighbourhood {got} instead of text * multiplier = (15000, 8000) (22500 / 16000 = the multipliers "
+                      "applied by the parser and again by Ruleset.__post_init__: class " + RESCALE_CLASS + ", repaired as C01-H1)",
+                      {"theorem_or_correspondence": "C01_cutoff_scaled_once / Ruleset.from_files", "flat": [PROP, 9, 10, 1, 1, 1, 0, 3, 2],
+                       "implementation": list(got), "expected": [15000, 8000],
+                       "input": chk.extra["ruleset_from_files_witness"]})
 
 
 def exhaustive_small():
@@ -1300,8 +1306,8 @@ def replay(chk, path):
     import json
     doc = json.load(open(path))
     flat = doc["flat"]
-    spec_fn = {1: 2, 2: 2, 3: 4, 4: 4, 5: 6, 6: 6, 7: 8, 8: 8}.get(flat[1], 2)
-    model_fn = {1: 1, 2: 1, 3: 3, 4: 3, 5: 5, 6: 5, 7: 7, 8: 7}.get(flat[1], 1)
+    spec_fn = {1: 2, 2: 2, 3: 4, 4: 4, 5: 6, 6: 6, 7: 8, 8: 8, 9: 9}.get(flat[1], 2)
+    model_fn = {1: 1, 2: 1, 3: 3, 4: 3, 5: 5, 6: 5, 7: 7, 8: 7, 9: 9}.get(flat[1], 1)
     model, spec = common.run_driver([[flat[0], model_fn] + flat[2:], [flat[0], spec_fn] + flat[2:]])
     print("model:", model, "specification:", spec, "recorded implementation:", doc.get("implementation"))
     inp = doc.get("input") or {}
